@@ -221,8 +221,7 @@ fn find_best_bin(data: &[Complex]) -> Option<usize> {
         .iter()
         .take(data.len())
         .skip(skip)
-        .max_by(|a, b| a.partial_cmp(b).unwrap_or(std::cmp::Ordering::Equal))
-        .unwrap()
+        .max_by(|a, b| a.partial_cmp(b).unwrap_or(std::cmp::Ordering::Equal))?
         * 0.8;
 
     // Pick the first value that's above 80% of max and not still heading upwards.
